@@ -283,6 +283,42 @@ def r173(facts, res):
 FIRST_READS = {'firsts', 'is_set'}          # YaccFirsts::firsts(ridx) / is_set(ridx, tidx)
 
 
+CONTINUATION_ADAPTORS = ('all', 'any', 'take_while', 'skip_while', 'position', 'find', 'map_while', 'rposition')
+
+
+def decides_continuation(facts, cb):
+    """closure `cb` is handed, in the body it is created in, to an iterator adaptor whose traversal stops depending on its answer"""
+    parent = facts.bodies.get(cb.parent)
+    if parent is None:
+        return False
+    for nm in CONTINUATION_ADAPTORS:
+        for bb, t in parent.calls_named(nm):
+            if (callee_of(t).get('trait') or '') != 'core::iter::traits::iterator::Iterator' and 'iter' not in (cpath(t) or ''):
+                continue
+            for a in t['args'][1:]:
+                l = op_local(a)
+                if any(kind == 'stmt' and 'agg' in rv and isinstance(rv['agg'], dict) and rv['agg'].get('closure') == cb.path for _bb, kind, rv in parent.defs().get(l, ())):
+                    return True
+    return False
+
+
+def flows_to_return(b, l, depth=6):
+    """local `l` (a bool) is what the body returns on some path, possibly negated or copied"""
+    if l == 0:
+        return True
+    if depth == 0:
+        return False
+    for bb, blk in enumerate(b.blocks):
+        for st in blk['stmts']:
+            if st['k'] != 'assign' or st['lhs']['p']:
+                continue
+            rv = st['rv']
+            ops = [rv['use']] if 'use' in rv else ([rv['a']] if 'un' in rv and rv['un'] == 'Not' else [])
+            if any(op_local(o) == l for o in ops) and flows_to_return(b, st['lhs']['l'], depth - 1):
+                return True
+    return False
+
+
 def r174(facts, res, R='R17.4', crates=('cfgrammar',), prefixes=('cfgrammar::yacc::firsts::', 'cfgrammar::yacc::follows::'), floor=2):
     """Wherever FIRST(Y) of a production symbol Y is read as that symbol's contribution to a set, nullable(Y) of the SAME Y
     is consulted and tested in the same function: whether the symbols after Y contribute too depends on it."""
@@ -314,6 +350,8 @@ def r174(facts, res, R='R17.4', crates=('cfgrammar',), prefixes=('cfgrammar::yac
             # `!x` goes through a Not before the switch
             if not tested and t['ret'] is not None:
                 tested = any(b.term(x)['k'] == 'switch' for x in [t['ret']])
+            if not tested and b.kind == 'closure' and b.lty(0) == 'bool' and decides_continuation(facts, b) and flows_to_return(b, t['dest']['l']):
+                tested = True       # the scan is an iterator adaptor (all/any/take_while..): the closure's answer decides whether it goes on
             if y is not None:
                 eps.setdefault(y, []).append((bb, tested))
         for bb, t in b.calls():
